@@ -1298,6 +1298,7 @@ func c15RunReg(in *script.Interner, rng *rand.Rand, tab *c15Tab, tabIdx, mk int)
 
 type c15Out struct {
 	RegCases   []*c15RegCase    `json:"regcases"`
+	RegScripts []*c15RegScript  `json:"regscripts"`
 	Tabs       []*c15Tab        `json:"tabs"`
 	Deliveries []*c15Delivery   `json:"deliveries"`
 	Bus        []*c15BusCall    `json:"bus"`
@@ -1408,6 +1409,17 @@ func cmdC15(args []string) error {
 			return fmt.Errorf("registration scenario %d: %w", i, err)
 		}
 		res.RegCases = append(res.RegCases, c)
+	}
+	for i := 0; i < 2**nBus; i++ {
+		mk := []int{0, 1, 2, 3, 3, 4, 5}[rng.Intn(7)]
+		tab := newC15Tab(mk, in)
+		tabIdx := len(res.Tabs)
+		res.Tabs = append(res.Tabs, tab)
+		sc, err := c15RunRegScript(in, rng, tab, tabIdx, mk)
+		if err != nil {
+			return fmt.Errorf("registration script %d: %w", i, err)
+		}
+		res.RegScripts = append(res.RegScripts, sc)
 	}
 	res.Strings = len(in.Tab)
 	res.Table = in.Tab
